@@ -1,4 +1,4 @@
-(* Proofs about Model/Query.v (property C15), repaired code (fx = true):
+(* Proofs about Model/Query.v (property C15), current code (fx = true, fix commit 81fa420):
    the match verdict of EVERY expression is unchanged by reordering siblings
    at any level of the annotation. *)
 From Coq Require Import List NArith Arith Bool Lia Permutation Relations.
